@@ -30,3 +30,27 @@ func verifLemmaValueRoundTrip(c *Compressor, d *Decompressor, v float64) bool {
 	return math.Float64bits(got) == math.Float64bits(v) && d.value == c.value &&
 		(c.leadingZeros == 255 || (c.leadingZeros == d.leadingZeros && c.trailingZeros == d.trailingZeros))
 }
+
+// Timestamp round trip: the decoder's time equals the encoder's (as uint32)
+// and the (t, delta) coupling is re-established.
+
+//@ func verifLemmaTimestampRoundTrip
+//@   props C08
+//@   lemma
+//@   requires c != nil && d != nil && c.bw != nil && d.br != nil
+//@   requires ghost(c.bw, "sid") == ghost(d.br, "sid") && ghost(d.br, "rpos") == ghost(c.bw, "wpos") && ghost(c.bw, "wpos") >= 0 && ghost(c.bw, "wpos") <= 1000000000
+//@   requires d.t == uint32(c.t) && d.delta == uint32(c.tDelta)
+//@   requires ghost(d, "edod") == int64(int32(t) - c.t) - int64(c.tDelta) && ghost(d, "edod") != 4294967295
+//@   ensures result
+//@ end
+
+func verifLemmaTimestampRoundTrip(c *Compressor, d *Decompressor, t uint32) bool {
+	if _, err := c.compressTimestamp(t); err != nil {
+		return true
+	}
+	got, err := d.decompressTimestamp()
+	if err != nil {
+		return true
+	}
+	return got == t && d.t == uint32(c.t) && d.delta == uint32(c.tDelta)
+}
